@@ -22,8 +22,26 @@ def main():
         code = by_name[NAMES[case['kind']]]
         parser = TracesParser(codes, {}, {})
         evs = [Kevent(i + 1, struct.pack('<QQQQ', *ws), tuple(ws), 7, code | q, code, q) for i, (q, ws) in enumerate(case['events'])]
+        if case.get('foreign'):
+            # the same chunks with unrelated records of the same thread and pairing domain in between (for strings and names:
+            # other kernel trace records, incl. one with the END bit; for lookups: records of a syscall), payloads non-zero
+            fcodes = ([by_name['BSC_getpid'], by_name['BSC_read']] if case['kind'] == 0 else
+                      [by_name['TRACE_DATA_NEWTHREAD'], by_name['TRACE_STRING_PROC_EXIT'],
+                       by_name['TRACE_STRING_THREADNAME_PREV' if case['kind'] == 2 else 'TRACE_STRING_THREADNAME']])
+            mixed = []
+            for i, e in enumerate(evs):
+                mixed.append(e)
+                if i + 1 < len(evs):
+                    for j, (fc, q) in enumerate(case['foreign']):
+                        fcode = fcodes[fc % len(fcodes)]
+                        data = bytes([0x41 + (i + j) % 20]) * 32
+                        mixed.append(Kevent(1000 + 10 * i + j, data, struct.unpack('<QQQQ', data), 7, fcode | q, fcode, q))
+            evs = mixed
         try:
             t = parser.parse_event_list(evs)
+            if [id(x) for x in t.ktraces] != [id(x) for x in evs]:
+                out.append({'err': 'TraceDoesNotHoldItsWindow', 'ktraces': [x.timestamp for x in t.ktraces]})
+                continue
             if case['kind'] == 0:
                 out.append({'a': t.vnode_id, 'b': 0, 'text': t.path.encode('utf-8', 'surrogateescape').hex()})
             elif case['kind'] == 1:
